@@ -803,6 +803,7 @@ func (in *inliner) newExpansion(fi *FuncInfo, cc *callCtx) (*expansion, string) 
 		spread bool
 	}
 	var pas []pa
+	recvNeedsAddr := false
 	if sig.Recv() != nil {
 		txt := in.text(cc.recv)
 		rt := cc.callInfo.TypeOf(cc.recv)
@@ -813,6 +814,8 @@ func (in *inliner) newExpansion(fi *FuncInfo, cc *callCtx) (*expansion, string) 
 			// x.m() with a pointer receiver takes &x; where the body only selects from the receiver, (&x).f is x.f
 			if !selectorBasesOnly(body, ex.usesOf[sig.Recv()]) {
 				txt = "(&" + txt + ")"
+			} else {
+				recvNeedsAddr = true // … unless it has to be bound to a local after all
 			}
 		case !recvPtr && argPtr:
 			txt = "(*" + txt + ")"
@@ -943,7 +946,11 @@ func (in *inliner) newExpansion(fi *FuncInfo, cc *callCtx) (*expansion, string) 
 				return nil, "type of parameter " + a.v.Name() + " cannot be spelled at the call site"
 			}
 			b.temp = fmt.Sprintf("%s__i%d", a.v.Name(), ex.id)
-			ex.prelude = append(ex.prelude, fmt.Sprintf("var %s %s = %s", b.temp, ts, a.txt))
+			bound := a.txt
+			if recvNeedsAddr && a.v == sig.Recv() {
+				bound = "&" + bound
+			}
+			ex.prelude = append(ex.prelude, fmt.Sprintf("var %s %s = %s", b.temp, ts, bound))
 			if len(uses) == 0 {
 				ex.prelude = append(ex.prelude, "_ = "+b.temp)
 			}
